@@ -46,11 +46,11 @@ CHECKS = {
    note="Trusted base: the Go race detector (finds races only on executed schedules). Claimed at exploration level.",
    technique="Go race detector over model-generated and randomized schedules (exploration)"),
  "C13": dict(engine="pure-engine", cat="model_checking", design="§5 C13, §4.1",
-   text="Apalache proves the postcondition for the specification's Recalculate over all 64-bit inputs (with a regression twin for the repaired branch and a vacuity twin); the Go function is bound to it by validating every recorded call - exhaustive small domain by TLC, seeded boundary-directed 64-bit calls by Apalache - against the property's postcondition.",
+   text="Apalache proves the postcondition for the specification's Recalculate over all 64-bit inputs (with a regression twin for the repaired branch and a vacuity twin); the Go function is bound to it by validating every recorded call - exhaustive small domain by TLC, seeded boundary-directed 64-bit calls by Apalache (incl. the band where the high word of Quantity*minimum equals Interval) - against the property's postcondition; a panic is recorded as an outcome the property does not allow.",
    note="Trusted: Apalache/Z3, TLC, the transcription RateConv.tla (itself checked for conformance on every recorded call).",
    technique="TLA+ spec of Recalculate; Apalache symbolic validity; TLC/Apalache validation of recorded real calls"),
  "C14": dict(engine="pure-engine", cat="model_checking", design="§5 C14, §4.1",
-   text="TLC checks the divider theorems on the spec operators over an exhaustive small domain and then decides every recorded call of the four real dividers (same domain, nil/empty/prefilled distributions) against the property; large magnitudes by the same postcondition with big integers.",
+   text="TLC checks the divider theorems on the spec operators over an exhaustive small domain and then decides every recorded call of the four real dividers (same domain, nil/empty/prefilled distributions) against the property; large magnitudes by the same postcondition with big integers; lists whose priorities sum beyond the machine word on the conservation clauses.",
    note="Trusted: TLC; 32-bit TLC integers bound the TLC-decided domain; float ties handled by the tie-permissive outcome set.",
    technique="TLA+ Dividers spec; TLC validation of recorded calls of the real dividers (B4)"),
  "C18": dict(engine="pure-engine", cat="model_checking", design="§5 C18, §4.1",
@@ -66,7 +66,7 @@ def _join(prop_text, note="Trusted: TLC, Go testing/synctest virtual clock; boun
 CHECKS.update({
  "C03": _join("TLC checks the concatenation/size invariants (ghost viol set inside the send action) of the explicit-time Join/Unite specifications in the free, urgent and ready regimes; TLC-enumerated and seeded timed schedules are replayed lock-step into the real v2 join, v2 unite and v1 join (copy and no-copy) in synctest bubbles; every recorded trace is validated against the trace specification (conformance) and judged by Mon_Join: concatenation of received slices = written sequence, no empty slice, size rules."),
  "C08": _join("Memory-ownership model (mem identities, owner) in Join/Unite checked by TLC; a retaining, scribbling consumer keeps every delivered slice, re-reads it after each later step and overwrites copy-mode slices; v1 Stop/cancel injected between delivery and release; Mon_Join decides: retained contents unchanged, copy-mode outputs never alias, no output between a no-copy delivery and its release."),
- "C09": _join("TLC checks 'short => timeout or final' inside the send action and the greedy reference batching in untimed configurations; the real code is driven with exact virtual timestamps; Mon_Join decides greedy batching (untimed) and delivered-no-earlier-than-Timeout-after-the-previous-delivery for short non-final slices; Apalache: JoinInd.tla (timing clause, every Timeout/period/JoinSize) and UniteInd.tla (unite size and maximality clauses, every JoinSize and slice-length sequence) as inductive invariants with twins that must fail; all unite length sequences over {0,1,J-1,J,J+1} up to the bound."),
+ "C09": _join("TLC checks 'short => timeout or final' inside the send action and the greedy reference batching in untimed configurations; the real code is driven with exact virtual timestamps; Mon_Join decides greedy batching (untimed) and delivered-no-earlier-than-Timeout-after-the-previous-delivery for short non-final slices; real clock: no-copy runs with a consumer holding slices about a Timeout under both timer-channel semantics (GODEBUG=asynctimerchan=1 is refused by synctest), judged by Mon_JoinHold; Apalache: JoinInd.tla (timing clause, every Timeout/period/JoinSize) and UniteInd.tla (unite size and maximality clauses, every JoinSize and slice-length sequence) as inductive invariants with twins that must fail; all unite length sequences over {0,1,J-1,J,J+1} up to the bound."),
  "C10": _join("TLC checks the age bound T + T div Div of the oldest buffered element in the urgent-with-ready-consumer regime; lock-step traces with a ready consumer (virtual clock, zero scheduling latency) for several inaccuracies and timeouts; Mon_Join decides deliveredAt - acceptedAt <= Timeout*(1+1/floor(100/inaccuracy)); Apalache: the age bound as an inductive invariant of JoinInd.tla for every Timeout, ticker period, JoinSize and arrival pattern (twins must fail); several disciplines fed from ONE input channel judged by Mon_JoinShared; directed schedules at the acceptance boundary of the constructors and with writes landing exactly at tick instants."),
  "C11": _join("Unite specification with slice-valued input: TLC checks that every non-empty input slice lies wholly in one output slice, empty ones leave no trace, oversize slices are outputs of their own after the flush; Apalache: UniteInd.tla proves the size clauses for every JoinSize and every sequence of slice lengths (twins must fail); all sequences of slice lengths over {0,1,J-1,J,J+1} replayed into the real unite; Mon_Join decides on the recorded boundaries."),
 })
